@@ -170,7 +170,7 @@ def run_e2(res, tier):
             if got["h"] != h or got["args"] != want_echo["args"]:
                 bad("target answered from %s with %s; helper was %s with %s" % (got["h"], got["args"], h, want_echo["args"]), "misrouted")
     res.parts["e2_cases"] = len(cases)
-    res.sample({"case": cases[3], "built": obs[3]})
+    res.sample(lambda: {"case": cases[3], "built": obs[3]})
 
 
 def run(tier):
